@@ -42,7 +42,8 @@ PROBES = ["skip", "dup", "swap", "insert", "replace", "append",
           "reneg_client_hello",
           "reneg_hello_request", "second_handshake_call", "victim_client",
           "victim_server", "tls13", "legacy", "early_appdata", "early_ccs",
-          "illegal_rejected", "legal_accepted", "wrong_epoch"]
+          "illegal_rejected", "legal_accepted", "wrong_epoch",
+          "protected_ccs"]
 COMPONENTS_REAL = ["tlslite handshake state machines of both roles, "
                    "_getMsg expected-type logic, Defragmenter"]
 COMPONENTS_STUB = ["socket", "os.urandom", "clock",
@@ -64,6 +65,16 @@ def grid_jobs(base_seed):
                                  "dev", "grid": si, "preset": {
                                      "cfg.victim": [victim], "d.op": [op],
                                      "d.idx": [idx]}})
+                # a copy of the peer's own first / second message (a second
+                # ClientHello / ServerHello ...) inserted before message idx
+                for cp in (0, 1):
+                    if cp < idx:
+                        jobs.append({"seed": base_seed * 1000003 + si,
+                                     "fam": "dev", "grid": si, "preset": {
+                                         "cfg.victim": [victim],
+                                         "d.op": [3], "d.idx": [idx],
+                                         "d.extra": [EXTRAS.index("copy")],
+                                         "d.copy": [cp]}})
                 for op, nex in ((3, len(EXTRAS)), (4, len(EXTRAS)), (5, 5)):
                     for e in range(nex):
                         if EXTRAS[e] == "copy" and op != 5:
@@ -102,6 +113,10 @@ def make_extra(kind, ver, captured):
         return M.HelloRequest().create()
     if kind == "ccs":
         return M.ChangeCipherSpec().create()
+    if kind == "prot_ccs":
+        if tuple(ver) >= (3, 4):
+            return byz.ProtectedCCS()
+        return M.ChangeCipherSpec().create()
     if kind == "key_update":
         return M.KeyUpdate().create(0)
     if kind == "nst":
@@ -135,11 +150,12 @@ def make_extra(kind, ver, captured):
 
 
 EXTRAS = ["ccs", "hello_request", "key_update", "nst", "finished", "shd",
-          "appdata", "copy", "empty_cert", "cert_req"]
+          "appdata", "copy", "empty_cert", "cert_req", "prot_ccs"]
 EXTRA_TYPE = {"ccs": G.CCS, "hello_request": G.HELLO_REQUEST,
               "key_update": G.KEY_UPDATE, "nst": G.NST,
               "finished": G.FINISHED, "shd": G.SHD, "appdata": G.APPDATA,
-              "empty_cert": G.CERT, "cert_req": G.CERT_REQ}
+              "empty_cert": G.CERT, "cert_req": G.CERT_REQ,
+              "prot_ccs": G.CCS}
 
 
 def build(seed, sc, chooser, victim, rules):
@@ -290,10 +306,17 @@ def run(job, streams=None):
     held = []
     fired = []
     cap2 = []
+    made = []
 
     def rule(msg, c):
         k = c.cur_index
-        cap2.append(msg)
+        # snapshot: tlslite updates its ClientHello object in place for the
+        # second flight after a HelloRetryRequest
+        from tlslite.messages import Message
+        snap = Message(msg.contentType, bytearray(msg.write()))
+        if hasattr(msg, "handshakeType"):
+            snap.handshakeType = msg.handshakeType
+        cap2.append(snap)
         if held and k == i + 1:
             first = held.pop()
             fired.append("swap")
@@ -312,6 +335,7 @@ def run(job, streams=None):
             extra_obj_idx < len(cap2) else \
             (msg if extra_kind == "copy" else
              make_extra(extra_kind, ver, None))
+        made.append(ex)
         if op == "insert":
             return [ex, msg]
         if op == "append":
@@ -323,10 +347,16 @@ def run(job, streams=None):
     sim, pair, peer, vic, ip, mt = build(seed, sc, ch, victim, [rule])
     rt = taps.RecvTap(vic.conn)
     vst = taps.SendTap(vic.conn)
+    vst.keep_plain = True
     oc, os_, st = pair.handshake()
     vo = oc if victim == "c" else os_
     po = os_ if victim == "c" else oc
     eps = {"c": pair.c, "s": pair.s}
+    if extra_kind == "prot_ccs" and made and \
+            getattr(made[0], "was_protected", None):
+        # a protected change_cipher_spec is never acceptable (RFC 8446 s5)
+        legal = False
+        probes["protected_ccs"] = 1
     delivered = b""
     if vo.kind == "ok":
         # does the victim hand out application data?
@@ -438,6 +468,18 @@ def run(job, streams=None):
                 t_j = items[j]
                 later = [r for r in vst.records
                          if r[5] > t_j and r[0] in (20, 22)]
+                warn = [r for r in vst.records
+                        if r[5] > t_j and r[0] == 21 and r[4] and
+                        len(r[4]) == 2 and r[4][0] == 1 and r[4][1] != 0]
+                if warn and not later:
+                    v("continued_after_illegal_message",
+                      "%s|%s|%s|%s|warning" % (
+                          op, G.name(seq[i]), G.name(extra_t)
+                          if extra_t is not None else "-",
+                          "tls13" if ver == (3, 4) else "legacy"),
+                      "the victim answered a handshake message that is not "
+                      "permitted at that point with a warning alert (%d) and "
+                      "carried on with the handshake" % warn[0][4][1])
                 if later:
                     v("continued_after_illegal_message",
                       "%s|%s|%s|%s" % (op, G.name(seq[i]),
@@ -452,7 +494,8 @@ def run(job, streams=None):
         if legal is False and delivered and not completed:
             v("data_before_completion", op, "victim delivered application "
               "data although its handshake did not complete")
-        if extra_kind == "appdata" and delivered.startswith(b"EARLY") :
+        if extra_kind == "appdata" and delivered.startswith(b"EARLY") \
+                and pre:
             v("early_appdata_delivered", op, "victim delivered application "
               "data that was sent inside the handshake")
     return _res(job, ch, sim, sc, viol, probes, verdict,
